@@ -23,6 +23,7 @@ import (
 //
 //	solve iterations=N duration_ms=D runs=R starts=S det=0|1 repeat=K snap=0|1 cancel_ms=C
 func runSolve(b block) {
+	defer func() { userDefs = nil }()
 	var input schema.Input
 	var opts factory.Options
 	resNames := []string{}
@@ -38,6 +39,8 @@ func runSolve(b block) {
 			if err := json.Unmarshal([]byte(strings.TrimPrefix(raw, "gopt ")), &opts); err != nil {
 				panic(err)
 			}
+		case "user":
+			userDefs = append(userDefs, fs)
 		case "build":
 			resNames = fs[1:]
 		case "solve":
@@ -81,6 +84,23 @@ func solveOnce(id string, input schema.Input, opts factory.Options, resNames []s
 		}
 		if _, ok := k.(nextroute.MaximumWaitVehicleConstraint); ok {
 			c.waitVeh = k
+		}
+	}
+	for i, fsu := range userDefs {
+		mx, _ := strconv.ParseFloat(fsu[2], 64)
+		base := userCons{ctx: c, field: fsu[1], max: mx, vehLevel: fsu[3] == "1", temporal: fsu[4] == "1", id: i}
+		if strings.HasPrefix(fsu[1], "level") {
+			base.field = "level"
+			base.r, _ = strconv.Atoi(strings.TrimPrefix(fsu[1], "level"))
+		}
+		var err error
+		if base.vehLevel {
+			err = model.AddConstraint(&userVehicleCons{base})
+		} else {
+			err = model.AddConstraint(&userStopCons{base})
+		}
+		if err != nil {
+			panic(err)
 		}
 	}
 	solver, err := nextroute.NewParallelSolver(model)
